@@ -532,7 +532,7 @@ def _run(ctx, scratch):
         ctx.guard(run_history, ctx, fixed, scratch, witness={"history": fixed})
         ctx.case(fixed, nontrivial=False)
         ctx.sample(fixed)
-    for _ in range(ctx.budget(700, 60000)):
+    for _ in range(ctx.budget(700, 300000)):
         ids_ = lg.Ids()
         kind, r = rand_root(rng, ids_)
         names = list(ops_for(kind, scratch))
